@@ -1,13 +1,17 @@
 //! C09: FragmentAssembler driven along the edges of spec/Fragments.tla.
-use crate::edges::{Replayable, replay};
+use crate::edges::{Replayable, replay, replay_paths};
 use edp_client::fragmentation::FragmentAssembler;
 use serde_json::{Value, json};
 use std::time::{Duration, Instant};
+
+/// one tick of the timed model (time passes through the guarded hook verif_backdate, not by sleeping)
+const TICK: Duration = Duration::from_secs(2);
 
 pub struct Frag {
     asm: FragmentAssembler,
     seq_map: Vec<u64>,   // model sequence id (1-based) -> real sequence id
     payload_mode: String,
+    timed: bool,
     cache_section: bool,   // the header fragment also carries an atom cache section (bytes cache_bytes(seq))
 }
 
@@ -33,13 +37,16 @@ pub fn piece(mode: &str, seq: u64, id: u64) -> Vec<u8> {
 impl Replayable for Frag {
     fn fresh(cfg: &Value) -> Self {
         let expire_all = cfg["expire"].as_str() == Some("all");
-        let asm = if expire_all {
+        let asm = if cfg["timed"].as_bool() == Some(true) {
+            // timed model: one tick is TICK of silence, the timeout lies between one and two ticks
+            FragmentAssembler::with_timeout(TICK * 3 / 2)
+        } else if expire_all {
             FragmentAssembler::with_timeout(Duration::ZERO)
         } else {
             FragmentAssembler::with_timeout(Duration::from_secs(3600))
         };
         let seq_map = cfg["seq_map"].as_array().map(|a| a.iter().map(|x| x.as_u64().unwrap()).collect()).unwrap_or(vec![1, 2, 3, 4]);
-        Frag { asm, seq_map, payload_mode: cfg["payload"].as_str().unwrap_or("pair").to_string(), cache_section: cfg["cache"].as_bool().unwrap_or(false) }
+        Frag { asm, seq_map, timed: cfg["timed"].as_bool() == Some(true), payload_mode: cfg["payload"].as_str().unwrap_or("pair").to_string(), cache_section: cfg["cache"].as_bool().unwrap_or(false) }
     }
     fn apply(&mut self, act: &Value) -> Value {
         let name = act["name"].as_str().unwrap_or("");
@@ -53,6 +60,14 @@ impl Replayable for Frag {
             "cont" => {
                 let seq = self.seq_map[(mseq - 1) as usize];
                 self.asm.add_fragment(seq, id, piece(&self.payload_mode, mseq, id))
+            }
+            "tick" => {
+                self.asm.verif_backdate(TICK);
+                None
+            }
+            "cleanup" if self.timed => {
+                self.asm.cleanup_expired();
+                None
             }
             "cleanup" => {
                 // let the monotonic clock advance so that a zero timeout has certainly passed
@@ -87,4 +102,10 @@ pub fn run_edges(args: &[String]) -> i32 {
     // frag-edges <edges.ndjson> <out.ndjson> <cfg-json>
     let cfg: Value = serde_json::from_str(&args[2]).expect("cfg json");
     replay::<Frag>(&args[0], &args[1], &cfg)
+}
+
+pub fn run_paths(args: &[String]) -> i32 {
+    // frag-paths <edges.ndjson> <out.ndjson> <cfg-json> <depth>
+    let cfg: Value = serde_json::from_str(&args[2]).expect("cfg json");
+    replay_paths::<Frag>(&args[0], &args[1], &cfg, args[3].parse().expect("depth"))
 }
